@@ -34,7 +34,7 @@ from simkit.rng import seed_globals  # noqa: E402
 from simkit.world import InvalidScenario, Monitor, Violation, result, run_sim  # noqa: E402
 
 PROPERTY = "C17"
-RUNS = {"quick": 6000, "thorough": 2_000_000}
+RUNS = {"quick": 5000, "thorough": 2_000_000}
 WALL = {"quick": 50, "thorough": 1500}
 BATCH = {"quick": 25, "thorough": 400}
 SELFTEST_RUNS = 12
